@@ -122,8 +122,12 @@ StreamIdentifier StreamIdentifier::make_identifier(const Stream& stream) {
 
 StreamIdentifier::address_type StreamIdentifier::serialize(IPv4Address address) {
     address_type addr;
-    OutputMemoryStream output(addr.data(), addr.size());
     addr.fill(0);
+    // Store IPv4 addresses as IPv4-mapped IPv6 ones (::ffff:a.b.c.d) so
+    // they never compare equal to an IPv6 address starting with the same bytes
+    addr[10] = 0xff;
+    addr[11] = 0xff;
+    OutputMemoryStream output(addr.data() + 12, 4);
     output.write(address);
     return addr; 
 }
